@@ -42,7 +42,15 @@ SHARED = {
     "pow": Pow(x, y),
     "const_undef": Log(C(-1)),
     "const_fold": Mul(C(2), C(3)),
+    "exp_log": Exp(Log(x)),
+    "add_enl": Add(Exp(Log(x)), y),
+    "neg_neg": Neg(Neg(x)),
+    "param_over_reducible": NPow(Add(x, C(0)), 3),
 }
+# shapes whose own simplification enlarges the domain: an in-place rewrite of the caller's tree changes answers
+ENLARGING = {"exp_log": Exp(Log(x)), "sq_sqrt": NPow(Root(x, 2), 2), "recip_recip": Recip(Recip(x)),
+             "log_sum": Add(Log(x), Log(y)), "add_enl": Add(Exp(Log(x)), y), "mul_enl": Mul(NPow(Root(y, 2), 2), x)}
+NEG_POINTS = [{"x": 2, "y": 3}, {"x": 0.5, "y": 1.5}, {"x": -1, "y": -2}]
 F3_SHARED = {"f3": Root(NPow(x, 2), 2)}
 # reducible shapes that symbolic derivatives embed by reference (C10): an in-place rewrite would show
 SHARED_C10 = {
@@ -53,6 +61,12 @@ SHARED_C10 = {
     "minus": Minus(x, y),
     "div": Div(x, y),
     "log_recip": Log(Recip(x)),
+    "sq_sqrt": NPow(Root(x, 2), 2),
+    "recip_recip": Recip(Recip(x)),
+    "log_sum": Add(Log(x), Log(y)),
+    "add_enl": Add(Exp(Log(x)), y),
+    "mul_enl": Mul(NPow(Root(y, 2), 2), x),
+    "param_over_reducible": NPow(Add(x, C(0)), 3),
 }
 CONTEXTS = {
     "add_y": lambda s: Add(s, y),
@@ -71,7 +85,8 @@ VARS = ("x", "y")
 
 # ---------------------------------------------------------------- pools
 class PoolSpec:
-    def __init__(self, name, shared, c1, c2, slots, points=POINTS, extra_ops=True):
+    def __init__(self, name, shared, c1, c2, slots, points=POINTS, extra_ops=True, budget=None):
+        self.budget = budget      # harness-patched REDUCTION_STEPS_BOUND for this pool (leaked budget state shows early)
         self.name = name
         self.shared = shared
         self.c1 = c1
@@ -109,7 +124,7 @@ def make_pool(spec: PoolSpec):
         return A.build(t, True, memo)
 
     pool = {"e1": build_with_shared(spec.t1), "e2": build_with_shared(spec.t2), "s": s,
-            "pts": [Point(**p) for p in spec.points], "outs": {}}
+            "pts": [Point(**p) for p in spec.points], "outs": {}, "kept": None}
     for sl in spec.slots:
         pool[sl] = None
     return pool
@@ -119,7 +134,7 @@ def make_standalone(spec: PoolSpec):
     """Freshly built, never-used copies: every expression built on its own (tree mode, nothing shared
     between e1, e2 and s).  This is what the answers of the pooled objects are compared with."""
     pool = {"e1": A.build(spec.t1), "e2": A.build(spec.t2), "s": A.build(spec.shared),
-            "pts": [Point(**p) for p in spec.points], "outs": {}}
+            "pts": [Point(**p) for p in spec.points], "outs": {}, "kept": None}
     for sl in spec.slots:
         pool[sl] = None
     return pool
@@ -141,6 +156,16 @@ def ops_for(spec: PoolSpec):
             ops.append(("D.at_num", e, 2))
             if e != "s":
                 ops.append(("at_num", e, 0))
+    # a LocatedDifferential that is kept and read later, printing of pooled objects
+    if not any(sl.startswith("Df") and sl.endswith("e") for sl in spec.slots):
+        # (kept objects multiply the state space: they go into the pools without an early Differential)
+        for j in range(min(np_, 2)):
+            ops.append(("LD.keep", "e1", j))
+        ops.append(("LD.read", "x"))
+        ops.append(("LD.read", "y"))
+    ops.append(("repr", "e1"))
+    if spec.budget is not None:
+        ops.append(("overflow",))
     for sl in spec.slots:
         ops.append(("new", sl))
         kind = sl[0:2]
@@ -148,6 +173,9 @@ def ops_for(spec: PoolSpec):
             for j in range(np_):
                 ops.append(("obj.at", sl, j))
             ops.append(("asexpr", sl))
+            ops.append(("out.repr", sl))
+            ops.append(("regen", sl))
+            ops.append(("regen2", sl))
             for j in range(np_):
                 ops.append(("out.at", sl, j))
         else:  # Differential
@@ -162,9 +190,11 @@ def ops_for(spec: PoolSpec):
 
 def enabled(pool, op):
     k = op[0]
-    if k in ("at", "at_num", "LD", "new", "D.at_num"):
+    if k in ("at", "at_num", "LD", "new", "D.at_num", "LD.keep", "repr", "overflow"):
         return True
-    if k == "out.at":
+    if k == "LD.read":
+        return pool["kept"] is not None
+    if k in ("out.at", "out.repr", "regen", "regen2"):
         return (op[1], None) in pool["outs"]
     return pool.get(op[1]) is not None
 
@@ -181,6 +211,38 @@ def apply_op(pool, op):
         return A.outcome(lambda: LocatedDifferential(pool[op[1]], pts[op[2]]).component(op[3]))
     if k == "D.at_num":
         return A.outcome(lambda: Derivative(pool[op[1]]).at(op[2]))
+    if k == "LD.keep":
+        c = A.construct(lambda: LocatedDifferential(pool[op[1]], pts[op[2]]))
+        if c[0] == "ok":
+            pool["kept"] = (c[1], op[1], op[2])
+            return ("ok",)
+        pool["kept"] = None
+        return c
+    if k == "LD.read":
+        return A.outcome(lambda: pool["kept"][0].component(op[1]))
+    if k == "repr":
+        return _text(lambda: repr(pool[op[1]]))
+    if k == "out.repr":
+        return _text(lambda: repr(pool["outs"][(op[1], None)]))
+    if k == "regen":
+        out = pool["outs"][(op[1], None)]
+        a = A.outcome(lambda: Partial(out, "x").as_expression())
+        b = A.outcome(lambda: Partial(A.build(A.reify(out)), "x").as_expression())
+        if a[0] == b[0] and (a[0] != "expr" or A._spelling_key(a[1]) == A._spelling_key(b[1])):
+            return ("text", "same as for a fresh structurally equal copy")
+        return ("text", f"derivative of the returned object simplifies to {_short(a)} but that of a fresh structurally "
+                        f"equal copy to {_short(b)}")
+    if k == "regen2":
+        out = pool["outs"][(op[1], None)]
+        zed = smx.Variable("zed")
+        a = A.outcome(lambda: Partial(smx.Divide(zed, out), "zed").as_expression())
+        b = A.outcome(lambda: Partial(smx.Divide(smx.Variable("zed"), A.build(A.reify(out))), "zed").as_expression())
+        if a[0] == b[0] and (a[0] != "expr" or A._spelling_key(a[1]) == A._spelling_key(b[1])):
+            return ("text", "same as for a fresh structurally equal copy")
+        return ("text", f"d/dzed of zed / (returned object) simplifies to {_short(a)} but with a fresh structurally "
+                        f"equal copy to {_short(b)}")
+    if k == "overflow":
+        return A.outcome(lambda: Derivative(smx.Multiply(smx.Exponential(smx.Constant(1000)), smx.Variable("x"))).as_expression())
     if k == "new":
         eslot, ctor = SLOT_KINDS[op[1]]
         c = A.construct(lambda: ctor(pool[eslot]))
@@ -214,14 +276,29 @@ def apply_op(pool, op):
     raise ValueError(op)
 
 
+def _text(thunk):
+    try:
+        return ("text", thunk())
+    except Exception as ex:  # noqa: BLE001
+        return ("exc", type(ex).__name__, str(ex)[:200])
+
+
 def prerequisites(op):
     k = op[0]
-    if k in ("at", "at_num", "LD", "new", "D.at_num"):
+    if k in ("at", "at_num", "LD", "new", "D.at_num", "LD.keep", "repr", "overflow", "LD.read"):
         return []
     pre = [("new", op[1])]
-    if k == "out.at":
+    if k in ("out.at", "out.repr", "regen", "regen2"):
         pre.append(("asexpr", op[1]))
     return pre
+
+
+def expected_key(pool, op):
+    """The operation whose outcome on standalone fresh objects is the expectation for `op` in this state."""
+    if op[0] == "LD.read":
+        _, e, j = pool["kept"]
+        return ("LD", e, j, op[1])
+    return op
 
 
 # ---------------------------------------------------------------- snapshots
@@ -346,6 +423,8 @@ def canon(pool, spec, gsnap=None):
     for k in sorted(pool["outs"], key=lambda kk: (kk[0], str(kk[1]))):
         ap(repr(k))
         enc(pool["outs"][k])
+    ap("kept")
+    enc(pool["kept"])
     ap("pts")
     for p in pool["pts"]:
         enc(p)
@@ -376,6 +455,9 @@ class LibraryGlobals:
                     continue
                 if isinstance(val, (dict, list, set)):
                     self.slots.append((mod, attr))
+                elif isinstance(val, (int, float, str, bytes, tuple, frozenset)) or val is None:
+                    if attr not in ("TYPE_CHECKING", "annotations"):
+                        self.slots.append((mod, attr))     # scalars: restored by assignment
                 elif isinstance(val, type) and getattr(val, "__module__", "").startswith("smoothmath"):
                     for cattr, cval in list(vars(val).items()):
                         if not cattr.startswith("__") and isinstance(cval, (dict, list, set)):
@@ -404,14 +486,20 @@ class LibraryGlobals:
             elif isinstance(cur, set):
                 cur.clear()
                 cur.update(val)
+            else:
+                setattr(o, a, val)
 
 
 def is_dirty(pool, spec, op):
     """Some node reachable from the call's target carries a memo or a flag (history can matter)."""
     targets = []
     k = op[0]
-    if k in ("at", "at_num", "LD", "D.at_num"):
+    if k in ("at", "at_num", "LD", "D.at_num", "LD.keep", "repr"):
         targets.append(pool[op[1]])
+    elif k in ("LD.read", "overflow"):
+        return pool["kept"] is not None
+    elif k in ("out.repr", "regen", "regen2"):
+        targets.append(pool["outs"].get((op[1], None)))
     elif k == "new":
         targets.append(pool[SLOT_KINDS[op[1]][0]])
     elif k == "out.at":
@@ -454,6 +542,8 @@ def same_outcome(expected, got, switched):
         return False
     if expected[0] == "expr":
         return A._spelling_key(expected[1]) == A._spelling_key(got[1])
+    if expected[0] == "text":
+        return expected[1] == got[1]
     if expected[0] == "exc":
         return expected[1] == got[1]
     return True
@@ -565,6 +655,20 @@ def show_op(spec, op):
         return f"LocatedDifferential({op[1]}, {P(op[2])}).component('{op[3]}')"
     if k == "D.at_num":
         return f"Derivative({op[1]}).at({op[2]})"
+    if k == "LD.keep":
+        return f"kept = LocatedDifferential({op[1]}, {P(op[2])})"
+    if k == "LD.read":
+        return f"kept.component('{op[1]}')"
+    if k == "repr":
+        return f"repr({op[1]})"
+    if k == "out.repr":
+        return f"repr({op[1]}.as_expression())"
+    if k == "regen":
+        return f"Partial({op[1]}.as_expression(), 'x').as_expression()  vs  the same on a fresh structurally equal copy"
+    if k == "regen2":
+        return f"Partial(Divide(zed, {op[1]}.as_expression()), 'zed').as_expression()  vs  the same with a fresh structurally equal copy"
+    if k == "overflow":
+        return "Derivative(Exponential(Constant(1000)) * x).as_expression()   (raises OverflowError)"
     if k == "new":
         return f"{op[1]} = new {op[1]} over {SLOT_KINDS[op[1]][0]}"
     if k == "obj.at":
@@ -585,6 +689,20 @@ def show_op(spec, op):
 # ---------------------------------------------------------------- the search
 def explore(spec: PoolSpec, state_cap, check_c10, st: Stats, f3_pool=False):
     """BFS over histories.  Returns dict with counts and the first violations (with shortest histories)."""
+    import logging
+    import smoothmath._private.base_expression.expression as be
+    saved_bound = be.REDUCTION_STEPS_BOUND
+    logging.disable(logging.WARNING)
+    if spec.budget is not None:
+        be.REDUCTION_STEPS_BOUND = spec.budget
+    try:
+        return _explore(spec, state_cap, check_c10, st)
+    finally:
+        be.REDUCTION_STEPS_BOUND = saved_bound
+        logging.disable(logging.NOTSET)
+
+
+def _explore(spec: PoolSpec, state_cap, check_c10, st: Stats):
     ops = ops_for(spec)
     base = Baselines(spec)
     G = LibraryGlobals()
@@ -615,21 +733,32 @@ def explore(spec: PoolSpec, state_cap, check_c10, st: Stats, f3_pool=False):
         for op in ops:
             if not enabled(pool, op):
                 continue
-            want = base.get(op)              # (computed in the fresh-process state, then cached)
+            want = base.get(expected_key(pool, op))   # (computed in the fresh-process state, then cached)
             if G.slots:
                 G.restore(gsnap)
-            nxt = clone(pool)
-            dirty = is_dirty(nxt, spec, op)
-            sw = switched_path(nxt, op)
-            got = apply_op(nxt, op)
-            gnext = G.capture() if G.slots else gsnap
+            try:
+                nxt = clone(pool)
+                dirty = is_dirty(nxt, spec, op)
+                sw = switched_path(nxt, op)
+                got = apply_op(nxt, op)
+                gnext = G.capture() if G.slots else gsnap
+                key_next = canon(nxt, spec, gnext)
+            except RecursionError:
+                msg = (f"after {show_op(spec, op)} the object graph of the pool is cyclic or unboundedly deep "
+                       "(an operation rewrote an existing expression in place)")
+                if len(v09) < 5:
+                    v09.append((hist + (op,), msg))
+                if len(v10) < 5:
+                    v10.append((hist + (op,), msg))
+                transitions += 1
+                continue
             transitions += 1
             dirty_transitions += 1 if dirty else 0
             distinct_outcomes.add((op, got[0]))
             if not same_outcome(want, got, sw):
                 if len(v09) < 5:
                     v09.append((hist + (op,), f"{show_op(spec, op)} -> {_short(got)} but on a never-used pool -> {_short(want)}"))
-            key = canon(nxt, spec, gnext)
+            key = key_next
             if key in seen:
                 continue
             if states >= state_cap:
@@ -638,7 +767,10 @@ def explore(spec: PoolSpec, state_cap, check_c10, st: Stats, f3_pool=False):
             seen[key] = len(hist) + 1
             states += 1
             if check_c10:
-                pr = c10_problems(nxt, spec, fresh_reprs, fresh_evals)
+                try:
+                    pr = c10_problems(nxt, spec, fresh_reprs, fresh_evals)
+                except RecursionError:
+                    pr = ["the object graph of the pool is cyclic or unboundedly deep (an existing expression was rewritten in place)"]
                 if pr and len(v10) < 5:
                     v10.append((hist + (op,), pr[0]))
                 if G.slots:
@@ -670,10 +802,12 @@ def pool_specs(pid, tier):
     else:
         slot_sets = [("P1l", "Df2e"), ("P1e", "Df2l"), ("P1l", "P2l"), ("P1e", "Df2e")]
     for si, (sname, sterm) in enumerate(shared.items()):
-        use = pairs if tier == "thorough" else [pairs[(si * 5 + k * 3) % len(pairs)] for k in range(3)]
+        use = pairs if tier == "thorough" else [pairs[(si * 5 + k * 7) % len(pairs)] for k in range(2)]
         for pi, (c1, c2) in enumerate(use):
             slots = slot_sets[(si + pi) % len(slot_sets)]
-            if tier == "thorough":
+            if sname in ENLARGING:
+                pts = NEG_POINTS
+            elif tier == "thorough":
                 pts = POINTS
             else:   # two interior points (a stale memo needs two defined points) + alternately outside / lacking
                 pts = [POINTS[0], POINTS[1], POINTS[2 + (si + pi) % 2]]
@@ -681,6 +815,10 @@ def pool_specs(pid, tier):
     for sname, sterm in F3_SHARED.items():
         specs.append(PoolSpec(f"{sname}/add_y+npow2", sterm, "add_y", "npow2", ("P1l", "Df2l"),
                               points=[{"x": 2, "y": 3}, {"x": -3, "y": 1}, {"x": 0, "y": 0}]))
+    # a pool explored under a tight step budget, with an operation that makes simplification raise part-way:
+    # step-budget state that leaks from one call into the next becomes visible within a few operations
+    specs.append(PoolSpec("budget/mul", Mul(x, y), "add_y", "exp", ("P1l", "Df2e"),
+                          points=[POINTS[0], POINTS[1]], budget=18))
     # one-variable pools: Derivative objects and bare numbers
     specs.append(PoolSpec("onevar/log", Log(x), "exp", "recip", ("D1l", "D1e"),
                           points=[{"x": 2}, {"x": 0.5}, {"x": 0}, {}][: 4 if tier == "thorough" else 3]))
@@ -692,7 +830,7 @@ def pool_specs(pid, tier):
 def run_history(pid, tier, seed):
     run = Run(pid, tier, seed, "HISTORY-MC")
     specs = seeded_order(pool_specs(pid, tier), seed)
-    cap = 2000 if tier == "quick" else 20000
+    cap = 1500 if tier == "quick" else 20000
     check_c10 = pid == "C10"
 
     def worker(chunk):
@@ -799,8 +937,8 @@ def replay_case(pid, c):
                 bad.append(f"op {op} not enabled")
                 break
             sw = switched_path(pool, op)
+            want = base.get(expected_key(pool, op))
             got = apply_op(pool, op)
-            want = base.get(op)
             if pid == "C09" and not same_outcome(want, got, sw):
                 bad.append(f"{show_op(spec, op)} -> {_short(got)}; never-used pool -> {_short(want)}")
             if pid == "C10":
